@@ -198,6 +198,19 @@ func TestC20RoundTrip(t *testing.T) {
 		if err := a.UnmarshalText(mt); err != nil || a != l {
 			t.Fatalf("MarshalText round trip of %v", l)
 		}
+		// the bytes MarshalText returns belong to the caller (encoding.TextMarshaler results are routinely appended
+		// to and recycled): overwriting them changes nothing for the next marshaling of the same level
+		want := string(mt)
+		for i := range mt {
+			mt[i] = '#'
+		}
+		_ = append(mt[:0], "info"...)
+		if again, _ := l.MarshalText(); string(again) != want {
+			t.Fatalf("MarshalText of %v returned %q after the caller overwrote the previous result (was %q): the result is shared", l, again, want)
+		}
+		if again, _ := zap.NewAtomicLevelAt(l).MarshalText(); string(again) != want {
+			t.Fatalf("AtomicLevel.MarshalText of %v returned %q after the caller overwrote an earlier result (was %q)", l, again, want)
+		}
 		js, err := json.Marshal(struct{ L zapcore.Level }{l})
 		var jb struct{ L zapcore.Level }
 		if err != nil || json.Unmarshal(js, &jb) != nil || jb.L != l {
